@@ -5,6 +5,7 @@ import os
 import re
 import shutil
 from vflib import core, mfrontlib
+from checks import mfrontbuild
 from vflib.core import Broken, finish, validate_trace
 
 INPUTS = [("VfYoung.mfront", "c"), ("VfMP.mfront", "generic"), ("VfProbe.mfront", "generic"), ("VfMPLog.mfront", "c"),
@@ -139,11 +140,24 @@ def run(ctx):
             ctx.violation("trace:%s" % (v["violated"] or "rejected"), what, {"history": [[i[0][0], i[0][1], i[1]] for i in h], "trace": v["file"]})
     if ncrash == 0:
         raise Broken("no injected crash took effect (strace injection not working)")
+    # ---- concurrent histories: mfront as a system (MFrontBuild.tla = Lock.tla x Registry.tla) ----
+    cst, ctr, cnotes = mfrontbuild.model_check(ctx)
+    plans = [([0, 1], 150000, 0), ([0, 1, 2], 150000, 0), ([0, 3], 100000, 30), ([1, 2], 0, 0), ([0, 1], 0, 2500)]
+    if ctx.thorough:
+        plans += [([i, j], h, s) for (i, j) in ((0, 2), (1, 3), (2, 3), (3, 0)) for (h, s) in ((150000, 0), (60000, 50), (0, 200))]
+        plans += [([0, 1, 2, 3], 150000, 0), ([0, 1, 2, 3], 0, 20), ([3, 2, 1, 0], 80000, 100)]
+    conc = mfrontbuild.concurrent_phase(ctx, "C47", INPUTS, desc, parse_registry, plans)
+    if conc["overlapping"] == 0:
+        raise Broken("no concurrent history had overlapping runs: the concurrent phase explored nothing")
     return finish(ctx, "model_checking", {
-        "states": mc.distinct + mut.distinct, "transitions": mc.generated + mut.generated, "traces_validated_against_impl": ntr,
-        "events_validated": nev, "samples": samples, "crashes_injected": ncrash,
+        "states": mc.distinct + mut.distinct + cst, "transitions": mc.generated + mut.generated + ctr,
+        "traces_validated_against_impl": ntr + conc["histories"], "events_validated": nev + conc["events"], "concurrent_histories": conc,
+        "composed_model": cnotes, "samples": samples, "crashes_injected": ncrash,
         "constants": "MC: 3 runs x 2 items, crash between any two steps; traces: %d histories over 4 inputs" % len(hists),
         "mutant_rejected_with": mut.violated},
-        ["a run's description is what a solo run of the same input registers in a fresh directory",
+        ["concurrent histories: the registry left by overlapping runs must hold at least what MFrontBuild.tla predicts for the recorded "
+         "schedule (the memory of the last writer) and nothing unregistered; a lost update between overlapping runs is a behaviour "
+         "of the design (read and write are separate lock-protected sections), not reported as a violation of C47 (successive runs)",
+         "a run's description is what a solo run of the same input registers in a fresh directory",
          "crash points are the 1st..3rd openat / write / close on src/targets.lst (strace -P), i.e. during the read and the rewrite",
          "the registry is parsed by an independent parser in the driver; an unbalanced or empty file is 'partial'"])
